@@ -46,6 +46,8 @@ pub struct LogCallbacks {
     pub log: Arc<Mutex<Vec<String>>>,
     pub rename: bool,
     pub vouch: bool,
+    /// item_name strips a `_s` / `_t` / `_e` / `_u` suffix: a typedef and its tag are mapped onto ONE name
+    pub strip: bool,
 }
 
 impl bindgen::callbacks::ParseCallbacks for LogCallbacks {
@@ -61,6 +63,13 @@ impl bindgen::callbacks::ParseCallbacks for LogCallbacks {
     fn item_name(&self, info: bindgen::callbacks::ItemInfo) -> Option<String> {
         if self.rename {
             Some(format!("rn_{}", info.name))
+        } else if self.strip {
+            for suf in ["_s", "_t", "_e", "_u"] {
+                if let Some(base) = info.name.strip_suffix(suf) {
+                    return Some(base.to_string());
+                }
+            }
+            None
         } else {
             None
         }
@@ -132,7 +141,7 @@ pub fn builder_of_job(job: &Value) -> Result<(bindgen::Builder, Arc<Mutex<Vec<St
     let log = Arc::new(Mutex::new(vec![]));
     if let Some(cb) = job.get("callbacks") {
         let g = |k: &str| cb.get(k).and_then(|v| v.as_bool()).unwrap_or(false);
-        b = b.parse_callbacks(Box::new(LogCallbacks { log: log.clone(), rename: g("rename"), vouch: g("vouch") }));
+        b = b.parse_callbacks(Box::new(LogCallbacks { log: log.clone(), rename: g("rename"), vouch: g("vouch"), strip: g("strip") }));
         if g("cargo") {
             b = b.parse_callbacks(Box::new(bindgen::CargoCallbacks::new()));
         }
